@@ -948,6 +948,88 @@ def fam_args_subscript_changes(tier, rng):
 FAMILIES.append(fam_args_subscript_changes)
 
 
+def fam_round9(tier, rng):
+    """STATIC procedures in histories with an abandoned activation (an error handled with RESUME label leaves the procedures that
+    were running) and STATIC procedures that call themselves (one set of variables, whoever calls)"""
+    out = []
+    c = var("C", "I")
+    # static-after-abandon: S (STATIC counter) is called, then an error happens in T / in U called from T / in S called from
+    # T, the handler leaves them with RESUME label, and S is called again from the module and from another procedure that
+    # has a local of the same name
+    for nbefore in (0, 1, 2):
+        for where in ("t", "t-u", "t-s", "s"):
+            for after in ("main", "proc", "proc+main", "main+proc"):
+                b = B()
+                z = var("Z", "I")
+                fail = b.let(var("Q", "I"), bin_("/", lit("I", 1), z))
+                sbody = [b.let(c, bin_("+", c, lit("I", 1))), b.print(lit("$", "s"), c)]
+                if where in ("t-s", "s"):
+                    # S fails on request (the SHARED flag is set by the caller): its activation is abandoned after the count
+                    sbody += [b.if_([(bin_("=", var("BOOM", "I"), lit("I", 1)), [b.let(var("BOOM", "I"), lit("I", 0)), fail])])]
+                tbody = [b.let(c, lit("I", 50)), b.print(lit("$", "t"), c)]
+                ubody = [b.print(lit("$", "u")), fail, b.print(lit("$", "u2"))]
+                if where == "t":
+                    tbody += [fail]
+                elif where == "t-u":
+                    tbody += [b.call("U", [])]
+                elif where == "t-s":
+                    tbody += [b.let(var("BOOM", "I"), lit("I", 1)), b.call("S", [])]
+                tbody += [b.print(lit("$", "t2"), c)]
+                rbody = [b.let(c, lit("I", 100)), b.call("S", []), b.print(lit("$", "r"), c)]
+                main = [b.dim("BOOM", "I", shared=True), b.onerror("goto", "H")] + [b.call("S", []) for _ in range(nbefore)]
+                if where == "s":
+                    main += [b.let(var("BOOM", "I"), lit("I", 1)), b.call("S", [])]
+                else:
+                    main += [b.call("T", [])]
+                main += [b.print(lit("$", "not-here")), b.label("L"), b.print(lit("$", "at-l"))]
+                for a in after.split("+"):
+                    main += [b.call("S", [])] if a == "main" else [b.call("R", [])]
+                main += [b.print(lit("$", "end"), c), b.end(), b.label("H"), b.print(lit("$", "h"), {"k": "err"}), b.resume("label", "L")]
+                subs = [sub("S", [], sbody, static=True), sub("T", [], tbody), sub("U", [], ubody), sub("R", [], rbody)]
+                out.append({"fam": "static-after-abandon:%d/%s/%s" % (nbefore, where, after), "prog": prog(main, subs)})
+    # static-recursion: a STATIC SUB / FUNCTION that calls itself, directly or through another procedure; every activation
+    # counts in the same variable.  (Parameters are not read after the inner call.)
+    for depth in (1, 2, 3):
+        for via in ("direct", "through"):
+            for kind in ("sub", "fun"):
+                for ncalls in (1, 2):
+                    b = B()
+                    n = var("N", "I")
+                    inner_arg = bin_("-", n, lit("I", 1))
+                    if kind == "sub":
+                        rec = b.call("V", [inner_arg]) if via == "direct" else b.call("W", [inner_arg])
+                        body = [b.let(c, bin_("+", c, lit("I", 1))), b.print(lit("$", "down"), n, c),
+                                b.if_([(bin_(">", n, lit("I", 1)), [rec])]), b.print(lit("$", "up"), c)]
+                        subs = [sub("V", [("N", "I")], body, static=True)]
+                        if via == "through":
+                            subs.append(sub("W", [("M", "I")], [b.let(c, lit("I", 7)), b.call("V", [var("M", "I")]), b.print(lit("$", "w"), c)]))
+                        main = [b.call("V", [lit("I", depth)]) for _ in range(ncalls)] + [b.print(lit("$", "end"), c)]
+                    else:
+                        f1 = fcall("V" if via == "direct" else "W", "I", [inner_arg], 0)
+                        st = b.let(var("D", "I"), f1)
+                        f1["sid"] = st["id"]
+                        body = [b.let(c, bin_("+", c, lit("I", 1))), b.print(lit("$", "down"), n, c),
+                                b.if_([(bin_(">", n, lit("I", 1)), [st])]), b.let(var("V", "I"), c)]
+                        subs = [fun("V", "I", [("N", "I")], body, static=True)]
+                        if via == "through":
+                            f2 = fcall("V", "I", [var("M", "I")], 0)
+                            st2 = b.let(var("W", "I"), f2)
+                            f2["sid"] = st2["id"]
+                            subs.append(fun("W", "I", [("M", "I")], [b.let(c, lit("I", 7)), st2]))
+                        main = []
+                        for _ in range(ncalls):
+                            fc = fcall("V", "I", [lit("I", depth)], 0)
+                            pr = b.print(lit("$", "v"), fc)
+                            fc["sid"] = pr["id"]
+                            main.append(pr)
+                        main.append(b.print(lit("$", "end"), c))
+                    out.append({"fam": "static-recursion:%d/%s/%s/%d" % (depth, via, kind, ncalls), "prog": prog(main, subs)})
+    return out
+
+
+FAMILIES.append(fam_round9)
+
+
 def cases(tier, seed):
     rng = random.Random(seed)
     out = []
